@@ -217,3 +217,90 @@ Proof.
       * cbn [nth_error]. apply Hk. destruct n'; cbn in *; lia.
     + lia.
 Qed.
+
+(** ---------------- circuit breaker: every history of calls ---------------- *)
+(** a history is a list of (time of the call, does the operation fail if it is invoked) *)
+Fixpoint cb_run (cb : breaker) (calls : list (Z * bool)) : list cbresult * breaker :=
+  match calls with
+  | [] => ([], cb)
+  | (t, ff) :: rest =>
+      let rs := cb_run (snd (cb_spec_step cb t ff)) rest in
+      (fst (cb_spec_step cb t ff) :: fst rs, snd rs)
+  end.
+
+(** failed invocations since the last successful one (a rejected call is not an invocation) *)
+Fixpoint trailing_fails (rs : list cbresult) (acc : Z) : Z :=
+  match rs with
+  | [] => acc
+  | CROk :: rest => trailing_fails rest 0
+  | CRErr :: rest => trailing_fails rest (acc + 1)
+  | CRRejected :: rest => trailing_fails rest acc
+  end.
+
+Definition cb_open_iff (cb : breaker) : Prop :=
+  cb_st cb = CBOpen <-> cb_threshold cb <= cb_fail cb.
+
+Lemma cb_step_history : forall cb t ff,
+  1 <= cb_threshold cb -> cb_open_iff cb ->
+  let r := fst (cb_spec_step cb t ff) in
+  let cb' := snd (cb_spec_step cb t ff) in
+  cb_threshold cb' = cb_threshold cb /\ cb_open_iff cb' /\
+  cb_fail cb' = trailing_fails [r] (cb_fail cb) /\
+  (r = CRRejected -> cb_st cb = CBOpen /\ t - cb_last cb < cb_cooldown cb) /\
+  (cb_st cb = CBOpen -> t - cb_last cb < cb_cooldown cb -> r = CRRejected).
+Proof.
+  intros [thr cd st f last] t ff Hthr Hiff. unfold cb_open_iff in *.
+  unfold cb_spec_step. cbn [cb_threshold cb_cooldown cb_st cb_fail cb_last] in *.
+  destruct (cbstate_eqb st CBOpen) eqn:Hst; cbn [andb].
+  - assert (st = CBOpen) as -> by (destruct st; cbn in Hst; congruence).
+    destruct (t - last <? cd) eqn:Hc.
+    + apply Z.ltb_lt in Hc. cbn. repeat split; try tauto; lia.
+    + apply Z.ltb_ge in Hc. destruct ff; cbn [fst snd cb_threshold cb_st cb_fail trailing_fails].
+      * destruct (thr <=? f + 1) eqn:Hle;
+          [apply Z.leb_le in Hle | apply Z.leb_gt in Hle];
+          repeat split; try reflexivity; try congruence; try lia; try (intros; lia).
+      * repeat split; try reflexivity; try congruence; try lia; try (intros; lia).
+  - assert (st <> CBOpen) as Hne by (destruct st; cbn in Hst; congruence).
+    destruct ff; cbn [fst snd cb_threshold cb_st cb_fail trailing_fails].
+    + destruct (thr <=? f + 1) eqn:Hle;
+        [apply Z.leb_le in Hle | apply Z.leb_gt in Hle];
+        repeat split; try reflexivity; try congruence; try lia; try tauto.
+    + repeat split; try reflexivity; try congruence; try lia; try tauto.
+Qed.
+
+Lemma trailing_fails_app : forall a b acc,
+  trailing_fails (a ++ b) acc = trailing_fails b (trailing_fails a acc).
+Proof.
+  induction a as [|x a IH]; intros b acc; cbn [app trailing_fails]; [reflexivity|].
+  destruct x; apply IH.
+Qed.
+
+(** After ANY history of calls, from any breaker whose state agrees with its counter (a new breaker
+    does): the counter is the number of failed invocations since the last success, the breaker is
+    open exactly when that number has reached the threshold, and no call made while it is open
+    within the cooldown is let through (the k-th result is a rejection exactly then). *)
+Lemma cb_history : forall calls cb,
+  1 <= cb_threshold cb -> cb_open_iff cb ->
+  let rs := fst (cb_run cb calls) in
+  let cb' := snd (cb_run cb calls) in
+  cb_threshold cb' = cb_threshold cb /\
+  cb_fail cb' = trailing_fails rs (cb_fail cb) /\
+  (cb_st cb' = CBOpen <-> cb_threshold cb <= trailing_fails rs (cb_fail cb)) /\
+  List.length rs = List.length calls.
+Proof.
+  induction calls as [|[t ff] rest IH]; intros cb Hthr Hiff.
+  - cbn. repeat split; try reflexivity; apply Hiff.
+  - cbn [cb_run fst snd].
+    destruct (cb_step_history cb t ff Hthr Hiff) as (A & B & C & _ & _).
+    specialize (IH (snd (cb_spec_step cb t ff)) ltac:(lia) B).
+    cbv zeta in IH. destruct IH as (I1 & I2 & I3 & I4).
+    change (fst (cb_spec_step cb t ff) :: fst (cb_run (snd (cb_spec_step cb t ff)) rest))
+      with ([fst (cb_spec_step cb t ff)] ++ fst (cb_run (snd (cb_spec_step cb t ff)) rest)).
+    rewrite trailing_fails_app, <- C.
+    repeat split.
+    + lia.
+    + exact I2.
+    + rewrite <- A. apply I3.
+    + rewrite <- A. apply I3.
+    + rewrite app_length. cbn [List.length]. lia.
+Qed.
